@@ -35,7 +35,25 @@ class IntEnumU(_enum.Enum):
     neg = -7
 
 
-_USER_ENUMS = {"StrEnumU": StrEnumU, "IntEnumU": IntEnumU}
+class MixIntEnumU(int, _enum.Enum):
+    """int-mixin enum that is not an IntEnum: str(member) is 'MixIntEnumU.high', isinstance(member, int) is True."""
+
+    low = 1
+    high = 30
+
+
+class MixStrEnumU(str, _enum.Enum):
+    red = "red"
+    quote = "o'k"
+
+
+class PlainIntEnumU(_enum.IntEnum):
+    three = 3
+    minus = -4
+
+
+_USER_ENUMS = {"StrEnumU": StrEnumU, "IntEnumU": IntEnumU, "MixIntEnumU": MixIntEnumU, "MixStrEnumU": MixStrEnumU,
+               "PlainIntEnumU": PlainIntEnumU}
 
 
 class Ref:
@@ -71,6 +89,8 @@ def enc(v):
         return {"$": "Q"}
     if isinstance(v, Cls):
         return {"$": "cls", "n": v.name}
+    if isinstance(v, _enum.Enum):
+        return {"$": "enum", "c": type(v).__name__, "n": v.name}
     if v is None or isinstance(v, (bool, str)):
         return v
     if isinstance(v, int):
